@@ -26,6 +26,8 @@ Inductive expectation :=
 | ExpAllow          (* policy allowed: RETURN to the dispatch chain with the accept mark set *)
 | ExpDeny           (* DROP / REJECT *)
 | ExpCtAllow        (* established connection: the chain's allow action (ACCEPT, or accept mark + RETURN) *)
+| ExpRateDrop       (* QoS: over the packet rate: DROP (always DROP, whatever the deny action) *)
+| ExpConnReject     (* QoS: over the connection limit: REJECT *)
 | ExpNoVerdict.     (* forward chains only: no tier decided; the chain ends with the accept mark clear and the
                        packet goes on through the rest of the FORWARD path *)
 
@@ -58,26 +60,45 @@ Fixpoint tiers_verdict_nodefault (s : ipsets) (tiers : list mtier) (p : packet) 
                end
   end.
 
+(* QoS oracles: whether this packet is over the configured packet rate / connection limit is outside the packet;
+   it enters through the environment's oracle for MOther matches (iptables asks "within rate", nft "over rate") *)
+Definition over_rate (c : cfg) (e : env) (p : packet) : bool :=
+  match c_flavor c with Iptables => negb (e_other e O_WITHIN_RATE p) | Nft => e_other e O_OVER_RATE p end.
+Definition over_conn (c : cfg) (e : env) (p : packet) : bool :=
+  match c_flavor c with
+  | Iptables => N.eqb (pk_proto p) 6 && e_other e O_TCP_SYN p && e_other e O_CONN_OVER p
+  | Nft => e_other e O_CONN_OVER p
+  end.
+
 (* normal (filter-table) endpoint chains, the forward chains of host endpoints, raw and pre-DNAT chains *)
-Definition expected (ec : ecfg) (s : ipsets) (tiers : list mtier) (profiles : list mprofile) (p : packet) : expectation :=
-  if negb (ec_admin_up ec) then ExpDeny
-  else if negb (is_untracked ec) && ct_in p [CtRelated; CtEstablished] then ExpCtAllow
+Definition expected_verdict (ec : ecfg) (s : ipsets) (tiers : list mtier) (profiles : list mprofile) (p : packet) : expectation :=
+  match ec_type ec with
+  | TForward =>
+      (* forwarded traffic is allowed when no applyOnForward policy applies; otherwise the tiers decide *)
+      if is_nil tiers then ExpAllow
+      else match tiers_verdict s tiers p with VAllow => ExpAllow | VDeny => ExpDeny | _ => ExpNoVerdict end
+  | TUntracked | TPreDNAT =>
+      (* allow: (NOTRACK and) RETURN with the accept mark; deny: drop; nothing decided: on to the filter table *)
+      match tiers_verdict_nodefault s tiers p with VAllow => ExpAllow | VDeny => ExpDeny | _ => ExpNoVerdict end
+  | TNormal =>
+      match ref_verdict s tiers profiles p with
+      | VAllow => ExpAllow
+      | _ => ExpDeny
+      end
+  end.
+
+(* in chain order: admin-down; QoS packet rate; then (expected_tail) conntrack; QoS connection limit;
+   encapsulation; policy *)
+Definition expected_tail (ec : ecfg) (c : cfg) (e : env) (tiers : list mtier) (profiles : list mprofile) (p : packet) : expectation :=
+  if negb (is_untracked ec) && ct_in p [CtRelated; CtEstablished] then ExpCtAllow
   else if negb (is_untracked ec) && ec_ct_invalid ec && ct_in p [CtInvalid] then ExpDeny
+  else if is_normal ec && ec_qos_conn ec && over_conn c e p then ExpConnReject
   else if encap_blocked ec p then ExpDeny
-  else match ec_type ec with
-       | TForward =>
-           (* forwarded traffic is allowed when no applyOnForward policy applies; otherwise the tiers decide *)
-           if is_nil tiers then ExpAllow
-           else match tiers_verdict s tiers p with VAllow => ExpAllow | VDeny => ExpDeny | _ => ExpNoVerdict end
-       | TUntracked | TPreDNAT =>
-           (* allow: (NOTRACK and) RETURN with the accept mark; deny: drop; nothing decided: on to the filter table *)
-           match tiers_verdict_nodefault s tiers p with VAllow => ExpAllow | VDeny => ExpDeny | _ => ExpNoVerdict end
-       | TNormal =>
-           match ref_verdict s tiers profiles p with
-           | VAllow => ExpAllow
-           | _ => ExpDeny
-           end
-       end.
+  else expected_verdict ec (e_sets e) tiers profiles p.
+Definition expected (ec : ecfg) (c : cfg) (e : env) (tiers : list mtier) (profiles : list mprofile) (p : packet) : expectation :=
+  if negb (ec_admin_up ec) then ExpDeny
+  else if is_normal ec && ec_qos_rate ec && over_rate c e p then ExpRateDrop
+  else expected_tail ec c e tiers profiles p.
 
 (* everything but the mark is untouched *)
 Definition packet_eqb_unmarked (a b : packet) : bool :=
@@ -98,6 +119,8 @@ Definition ok_result (ec : ecfg) (c : cfg) (x : expectation) (p : packet) (res :
   | ExpCtAllow, RReturn p' =>
       (match ec_allow ec with AllowReturn => true | AllowAccept => false end)
       && mark_has (pk_mark p') (c_accept c) && packet_eqb_unmarked p p'
+  | ExpRateDrop, RDone FDrop p' => packet_eqb_unmarked p p'
+  | ExpConnReject, RDone FReject p' => packet_eqb_unmarked p p'
   | ExpNoVerdict, RFall p' => mark_clear (pk_mark p') (c_accept c) && packet_eqb_unmarked p p'
   | _, _ => false
   end.
@@ -127,25 +150,44 @@ Record case := {
   k_profiles : list mprofile;
   k_sets : list (N * list member);         (* contents of the IP sets the rules name *)
   k_impl : chains;                         (* the REAL renderer's chains, parsed from their rendered text; endpoint chain first *)
-  k_packets : list packet                  (* probe packets, all of version k_ver *)
+  k_packets : list packet;                 (* probe packets, all of version k_ver *)
+  k_groupings : list (list (N * N) * list (list N))
+    (* for cases whose groups come from the REAL endpointManager.groupTieredPolicy: per tier and direction the
+       input (selector id, policy index) list and the groups it returned, as lists of policy indices *)
 }.
 
-Definition case_env (k : case) : env := {| e_sets := ipsets_of_list (k_sets k); e_other := fun _ _ => true |}.
+(* the oracle for matches outside the packet, fixed for the evaluation of cases (any function of the packet that
+   does not look at the mark would do): packets from source port 5000 are over the packet rate, packets from source
+   port 40000 over the connection limit, every TCP packet except to port 53 is a SYN; log rate limits never bite *)
+Definition case_other (k : N) (p : packet) : bool :=
+  if N.eqb k O_WITHIN_RATE then negb (N.eqb (pk_sport p) 5000)
+  else if N.eqb k O_OVER_RATE then N.eqb (pk_sport p) 5000
+  else if N.eqb k O_TCP_SYN then negb (N.eqb (pk_dport p) 53)
+  else if N.eqb k O_CONN_OVER then N.eqb (pk_sport p) 40000
+  else true.
+Definition case_env (k : case) : env := {| e_sets := ipsets_of_list (k_sets k); e_other := case_other |}.
 
 Definition chain_eqb (a b : string * list irule) : bool := String.eqb (fst a) (fst b) && rules_eqb (snd a) (snd b).
 Definition chains_eqb : chains -> chains -> bool := list_eqb chain_eqb.
+
+(* what C09 needs of the grouping: it is an order-preserving partition of the tier's policy list (the reference
+   semantics is stated on the flat list) into non-empty groups *)
+Definition grouping_ok (input : list (N * N)) (groups : list (list N)) : bool :=
+  list_eqb N.eqb (List.concat groups) (map snd input) && forallb (fun g => negb (is_nil g)) groups.
 
 Definition case_fuel : nat := 6.
 
 Definition check_case (k : case) : bool * bool :=
   let e := case_env k in
   ( (* model = implementation, chain by chain *)
-    chains_eqb (render_endpoint (k_ecfg k) (k_cfg k) (k_ver k) (k_name k) (k_tiers k) (k_profiles k)) (k_impl k),
+    chains_eqb (render_endpoint (k_ecfg k) (k_cfg k) (k_ver k) (k_name k) (k_tiers k) (k_profiles k)) (k_impl k)
+    && forallb (fun ig => list_eqb (list_eqb N.eqb) (group_policies (fst ig)) (snd ig)) (k_groupings k),
     (* specification oracle on the implementation's own chains *)
     forallb (fun p =>
       negb (entry_mark_ok (k_cfg k) p && ipver_eqb (pk_ver p) (k_ver k))
-      || ok_result (k_ecfg k) (k_cfg k) (expected (k_ecfg k) (e_sets e) (k_tiers k) (k_profiles k) p) p
-           (run_chain case_fuel (k_impl k) e (k_name k) p)) (k_packets k) ).
+      || ok_result (k_ecfg k) (k_cfg k) (expected (k_ecfg k) (k_cfg k) e (k_tiers k) (k_profiles k) p) p
+           (run_chain case_fuel (k_impl k) e (k_name k) p)) (k_packets k)
+    && forallb (fun ig => grouping_ok (fst ig) (snd ig)) (k_groupings k) ).
 
 (* ------------------------------------------------------------------ known-finding classification *)
 (* A failing case counts as the known defect "profile-pass-rule-stale-pass-mark" only if ALL of:
@@ -158,7 +200,7 @@ Definition check_case (k : case) : bool * bool :=
 Definition set_profile_fix (ec : ecfg) (b : bool) : ecfg :=
   {| ec_type := ec_type ec; ec_admin_up := ec_admin_up ec; ec_failsafe := ec_failsafe ec; ec_allow := ec_allow ec;
      ec_ct_invalid := ec_ct_invalid ec; ec_block_vxlan := ec_block_vxlan ec; ec_block_ipip := ec_block_ipip ec;
-     ec_profile_fix := b |}.
+     ec_qos_rate := ec_qos_rate ec; ec_qos_conn := ec_qos_conn ec; ec_profile_fix := b |}.
 
 Definition reaches_profiles (s : ipsets) (tiers : list mtier) (p : packet) : bool :=
   forallb (fun t => match tier_verdict s (to_tier t) p with VAllow | VDeny => false | _ => true end) tiers.
@@ -173,10 +215,10 @@ Definition classify_case (k : case) : bool * bool :=
     && negb (profiles_pass_free (k_profiles k))
     && forallb (fun p =>
          negb (entry_mark_ok (k_cfg k) p && ipver_eqb (pk_ver p) (k_ver k))
-         || ok_result ec (k_cfg k) (expected ec (e_sets e) (k_tiers k) (k_profiles k) p) p
+         || ok_result ec (k_cfg k) (expected ec (k_cfg k) e (k_tiers k) (k_profiles k) p) p
               (run_chain case_fuel (k_impl k) e (k_name k) p)
          || (reaches_profiles (e_sets e) (k_tiers k) p
-             && ok_result ec (k_cfg k) (expected ec (e_sets e) (k_tiers k) (k_profiles k) p) p
+             && ok_result ec (k_cfg k) (expected ec (k_cfg k) e (k_tiers k) (k_profiles k) p) p
                   (run_chain case_fuel fixed e (k_name k) p))) (k_packets k),
     false ).
 
